@@ -353,7 +353,11 @@ func tokNames(ks []int64, names map[int64]string) string {
 
 // R06.3: layouts transcribed from the TDS 5.0 functional specification.
 // Letters as in E-SHAPE. The length prefix is the first letter.
-var specLayouts = []struct{ typ string; wide, hasVariant bool; layout, ref string }{
+var specLayouts = []struct {
+	typ              string
+	wide, hasVariant bool
+	layout, ref      string
+}{
 	{"RowFmtPackage", false, true, "2 2 ( 1 S 1 4 1 FMT 1 S )*", "TDS_ROWFMT: Length(2) NumCols(2) {NameLen(1) Name Status(1) UserType(4) DataType(1) [fmt] LocaleLen(1) Locale}*"},
 	{"RowFmtPackage", true, true, "4 2 ( 1 S 1 S 1 S 1 S 1 S 4 4 1 FMT 1 S )*", "TDS_ROWFMT2: Length(4) NumCols(2) {LabelLen Label CatLen Cat SchemaLen Schema TableLen Table NameLen Name Status(4) UserType(4) DataType(1) [fmt] LocaleLen Locale}*"},
 	{"OrderByPackage", false, false, "2 ( 1 )*", "TDS_ORDERBY: NumCols(2) {Col(1)}*"},
